@@ -255,6 +255,14 @@ func genC20(env *core.Env, emit func(core.Case)) {
 				case 3:
 					tg = append(tg, publish.Target{Zone: "example.net", Name: "example.net"})
 					shape += "n"
+				case 4:
+					// a record name that exists - in the OTHER zone of this account: not found in the zone named
+					if nrec > 0 && r.IntN(2) == 0 {
+						tg = append(tg, publish.Target{Zone: "example.net", Name: fmt.Sprintf("h%d.example.org", r.IntN(nrec))})
+					} else {
+						tg = append(tg, publish.Target{Zone: "example.org", Name: "example.net"})
+					}
+					shape += "x"
 				default:
 					if nrec > 0 {
 						// favour records on later pages
